@@ -106,7 +106,8 @@ class CIRRate(BasePrimary):
 
         spot = generate_cir(
             n_paths=n_paths,
-            n_steps=ceil(time_horizon / self.dt + 1),
+            # (round: time_horizon / dt may land just above an integer, e.g. (6 * 0.1) / 0.1)
+            n_steps=ceil(round(time_horizon / self.dt, 9) + 1),
             init_state=init_state,
             kappa=self.kappa,
             theta=self.theta,
